@@ -22,6 +22,33 @@ def run(c):
             c.violate("the checker crashes on a well-typed, annotated program: %s" % m.get("text"), dict(kind="pipeline-crash", text=m.get("text"), origin=m.get("origin"), what=m["what"]))
     allp = pc.validate(c, "C05", [ev1, ev2, ev3], "events")
 
+    # ---- the elaborator itself (spec/GramElab.tla on top of GramUnifyAlg): TLC runs the specification's elaborator on the SOURCE
+    # of every recorded program (holes as parsed) and compares verdict, elaborated term and reported type with the real
+    # checker's.  "As coded" (holes copied by `open`) must agree everywhere; the intended design (holes kept) may differ only
+    # where the hook saw `open` reach an unsolved hole (the recorded finding).  This is conformance of the specification beyond the
+    # listed properties (programs with holes carry no obligation in C05): counted and reported, never a VIOLATION line.
+    import os
+    ep = os.path.join(vf.WORK, "pipe", "C05-elab.ndjson")
+    with open(ep, "w") as o:
+        k = 0
+        for p in (ev2, ev3):
+            if p and os.path.exists(p):
+                for line in open(p):
+                    k += 1
+                    if not c.quick or p == ev2 or k % 3 == 0:
+                        o.write(line)
+    te = vf.validate_trace("Trace_Elab", ep, "c05-elab", chunk_events=100, par=12, consts="CONSTANT CopyHoles = TRUE\n")
+    c.add_trace(te, "Trace_Elab (elaborator as coded)")
+    for rj in te["rejects"][:5]:
+        vf.log("elaborator specification (as coded) differs from the checker: %s on %s" % (rj["what"][:120], ((rj["event"] or {}).get("text") or "")[:200]))
+    td = vf.validate_trace("Trace_Elab", ep, "c05-elab-design", chunk_events=100, par=12, consts="CONSTANT CopyHoles = FALSE\n")
+    c.add_trace(td, "Trace_Elab (intended design: holes kept by open)")
+    unexplained = [rj for rj in td["rejects"] if not ((rj["event"] or {}).get("holes_opened", 0) or 0) > 0]
+    for rj in unexplained[:5]:
+        vf.log("intended design differs from the checker WITHOUT a copied hole: %s on %s" % (rj["what"][:120], ((rj["event"] or {}).get("text") or "")[:200]))
+    c.cov["elaborator_specification"] = {"programs": te["events"], "as_coded_differs_from_checker": len(te["rejects"]), "design_differs_from_checker": len(td["rejects"]),
+                                         "design_differences_without_a_copied_hole": len(unexplained)}
+
     def mut(ev):
         if ev.get("accepted") and ev["elab"].get("k") == "bin":
             ev["elab"] = dict(ev["elab"], a=ev["elab"]["b"], b=ev["elab"]["a"])
